@@ -14,7 +14,7 @@ func vhPath(tag string, max int) []byte { return vhNibbles(tag, vsChoose(tag+"-l
 //
 //verif:harness C01.trie_decode_traverse unwind=40 native
 //verif:exec github.com/ethereum/go-ethereum/rlp
-//verif:param L=5/8 P=1/3
+//verif:param L=5/6 P=1/2
 func vhC01TrieDecodeTraverse() {
 	buf := vsBytes("node", vsParam("L"))
 	path := vhPath("path", vsParam("P"))
